@@ -1,7 +1,7 @@
 (* c10_driver.ml — runs the extracted model / specification of property C10.
    One case per stdin line, blank separated.  Rationals are  [-]<binary numerator>/<binary denominator>
    (binary digit strings, so that no big-number library is needed on the OCaml side).
-     K <variant 0=before F9|1=after F9|2=after F9 and F25> <npe|lltsa|lpp> N D
+     K <variant 0=before F9|1=after F9|2=after F25|3=after F42 (current)> <npe|lltsa|lpp> N D
        X[D*N, feature major]  nnz (r c v)*nnz  ndv dv*ndv
          -> "ok <lhs D*D> <rhs D*D>"  (row major, full tables)   |  "oob site index size"
      S <npe|lltsa|lpp> N D  X[D*N]  nnz (r c v)*  ndv dv*  lhs[D*D] rhs[D*D]
@@ -70,7 +70,7 @@ let () =
            let next_int () = int_of_string (next ()) in
            let next_q () = qc_of_token (next ()) in
            let cmd = w.(0) in
-           let variant = if cmd = "K" then (match next_int () with 0 -> VShipped | 1 -> VF9 | 2 -> VF25 | _ -> failwith "bad variant") else VF25 in
+           let variant = if cmd = "K" then (match next_int () with 0 -> VShipped | 1 -> VF9 | 2 -> VF25 | 3 -> VF42 | _ -> failwith "bad variant") else VF42 in
            let m = meth (next ()) in
            let n = next_int () in
            let d = next_int () in
